@@ -10,19 +10,21 @@ MUT = r"^dashmap::(DashMap|DashSet)::(insert|remove|remove_if|remove_if_mut|entr
 
 def check(F, rep):
     rep.clause("revocation visibility: between the point the connection id is published to the embedder (on_connect) and the point a cancel handle becomes reachable from Clients::disconnect (insert into the registry) no suspension point may lie, unless a missed disconnect leaves state that registration consults")
-    rep.clause("disconnect only shuts down connections found under the given endpoint id; with a connection id only the matching one")
+    rep.clause("disconnect only shuts down connections found under the given endpoint id; with a connection id only the matching one; without one, every connection of that endpoint (active and parked)")
     rep.undecided("that start_shutdown actually stops service (cancellation token observed by the actor loop: see C05/C07 run loop rules)")
 
     # ---- clause 2: disconnect targets
-    d = get_fn(F, rep, CL + "disconnect")
+    from ..inline import inlined
+    d0 = get_fn(F, rep, CL + "disconnect")
+    d = inlined(F, d0)        # e.g. a helper returning the chained iterator over all connections
     gets = calls_on_field(d, "clients", "dashmap::DashMap::get")
     rep.exact("disconnect", "clients.get(..) in disconnect", len(gets), 1)
     sh = []
-    for g in F.tree(d):
+    for g in [d] + [x for x in F.tree(d0) if x is not d0]:
         rep.fn(g)
         for b, t in find_calls(g, S + "client::Client::start_shutdown"):
             sh.append((g, b, t))
-    rep.floor("disconnect", "start_shutdown calls in disconnect", len(sh), 2)
+    rep.floor("disconnect", "start_shutdown calls in disconnect", len(sh) + len([1 for b, t in find_calls(d, regex=r"Iterator::for_each$")]), 1)
     if gets:
         gb, gt = gets[0]
         rep.ob("disconnect", arg_ref_target(d, gt["args"][1]) == 2, site(d, gb), "lookup key is the endpoint_id parameter", skey(F, d, "lookup-key"))
@@ -43,7 +45,7 @@ def check(F, rep):
             rep.exact("disconnect", "start_shutdown on the found connection", len(single), 1)
             for g, b, t in single:
                 rep.ob("disconnect", requires(d, b, ft), site(d, b), "targeted shutdown requires find(..) == Some", skey(F, d, "targeted-requires-found"))
-            preds = [g for g in F.tree(d) if g is not d]
+            preds = [g for g in F.tree(d0) if g is not d0]
             okp = False
             for g in preds:
                 for b, t in find_calls(g, "core::cmp::PartialEq::eq"):
@@ -51,6 +53,53 @@ def check(F, rep):
                     if any(x[2][-1:] == ("connection_id",) for x in s) and any(x[0] == "arg" and x[1] == 1 for x in s):
                         okp = True
             rep.ob("disconnect", okp, site(d, finds[0][0]), "find predicate compares the connection's id with the requested id", skey(F, d, "find-pred"))
+
+    # ---- clause 2b: without a connection id EVERY connection of the endpoint is shut down
+    if gets:
+        du = defuse(d)
+        SHUT = S + "client::Client::start_shutdown"
+        universal = []
+        # (a) for loops: every iteration passes through start_shutdown on the current element
+        for nb, nt in find_calls(d, "core::iter::traits::iterator::Iterator::next"):
+            nts, _ = call_result_tests(d, nb)
+            some_t = [tg for t in nts for _, tg in t.success]
+            shb = [b for g, b, t in sh if g is d and nt["dest"]["l"] in du.closure(op_base(t["args"][0])) and b in d.reachable(nb)]
+            if some_t and shb and all(nb not in d.reachable(tg, removed_blocks=set(shb)) for tg in some_t):
+                universal.append((nb, op_base(nt["args"][0])))
+        # (b) for_each(start_shutdown) / for_each(|c| c.start_shutdown())
+        for b, t in find_calls(d, regex=r"Iterator::for_each$"):
+            a = t["args"][1]
+            okf = a["k"] == "const" and norm(str(a.get("fn") or "")) == SHUT
+            l = op_base(a)
+            if l is not None:
+                m_ = re.search(r"closure@[^:]+:(\d+):", str(d.locals[l]))
+                for c in F.tree(d0):
+                    if c is not d0 and m_ and c.line == int(m_.group(1)):
+                        cs_ = find_calls(c, SHUT)
+                        okf = okf or (len(cs_) == 1 and c.postdominates(cs_[0][0], 0))
+            if okf:
+                universal.append((b, op_base(t["args"][0])))
+        ok_u, why = False, "no loop / for_each applies start_shutdown to every element"
+        opt_tests = []
+        for b in sorted(d.reachable(0)):
+            t = d.blocks[b]["t"]
+            if t["k"] == "switch":
+                for st in d.blocks[b]["s"]:
+                    if st["k"] == "a" and st["rv"]["k"] == "discr" and st["rv"]["p"]["l"] == 3 and not st["rv"]["p"].get("p") and op_local(t["d"]) == st["lhs"]["l"]:
+                        su, fa = switch_edges(d, b, 1)
+                        opt_tests.append(Test(b, su, fa, 0, "discr:option", False, None))
+        for b, t in d.calls():
+            if call_matches(t, r"^core::option::Option::(is_some|is_none)$") and copy_sources(d, op_base(t["args"][0])) == {("arg", 3, ())}:
+                for x in call_result_tests(d, b, family="bool")[0]:
+                    opt_tests.append(x if callee_names(t)[0].endswith("is_some") else Test(x.bb, x.failure, x.success, x.level, x.family, not x.neg, x.local))
+        for ub, it_l in universal:
+            fr = {fld for _, fld in du.field_reads(it_l)} if it_l is not None else set()
+            both = {"active", "inactive"} <= fr
+            on_none = bool(opt_tests) and requires_failure(d, ub, opt_tests)
+            if both and on_none:
+                ok_u = True
+            why = "iterates fields %s; reached only without a connection id: %s" % (sorted(fr & {"active", "inactive"}), on_none)
+        rep.ob("disconnect", ok_u, site(d, universal[0][0] if universal else None), "disconnect(endpoint, None) applies start_shutdown to every connection of the endpoint - the active one and all parked ones (%s); shutting down only the first match would leave the active connection of a duplicated endpoint served" % why, skey(F, d, "none-shuts-all"))
 
     # ---- clause 1: the window
     acc = body_of(F, rep, S + "http_server::Inner::accept")
